@@ -1006,6 +1006,9 @@ Lemma hfield_msg s rrec m slot f idx tok t :
       if i_pointer (field_info s f) then
         match rrec idx b (match nth slot (fst t) (VInt 0) with VMsg (Some x) => x | _ => zero_of s idx end) with
         | Some x => Some (set_nth (clear_siblings m f slot (fst t)) slot (VMsg (Some x)), snd t) | None => None end
+      else if i_oneof (field_info s f) then
+        match rrec idx b (match nth slot (fst t) (VInt 0) with VOpt (Some (VEmb fs1 u1)) => (fs1, u1) | _ => zero_of s idx end) with
+        | Some x => Some (set_nth (clear_siblings m f slot (fst t)) slot (VOpt (Some (VEmb (fst x) (snd x)))), snd t) | None => None end
       else
         match rrec idx b (match nth slot (fst t) (VInt 0) with VEmb fs1 u1 => (fs1, u1) | _ => zero_of s idx end) with
         | Some x => Some (set_nth (clear_siblings m f slot (fst t)) slot (VEmb (fst x) (snd x)), snd t) | None => None end
@@ -1015,7 +1018,7 @@ Proof.
   intros Hc Ht Hr. unfold hfield, apply_known. rewrite Hc, Ht, Hr.
   destruct (t_pay tok); try reflexivity. destruct (i_pointer (field_info s f)).
   - destruct (rrec idx b _); reflexivity.
-  - destruct (rrec idx b _); reflexivity.
+  - destruct (i_oneof (field_info s f)); destruct (rrec idx b _); reflexivity.
 Qed.
 
 Section MsgFields.
@@ -1035,12 +1038,11 @@ Hypothesis Hrec : forall idx b st0 t, good idx = true -> bytes_ok b -> (length b
 (* singular message fields: pointer (merge into the existing message or a fresh one), always-present, oneof member *)
 Lemma msg_field_ok idx slot f op : good idx = true ->
   f_custom f = CNone -> fty f = TMsg idx -> flabel f <> LRepeated ->
-  (foneof f <> None -> i_pointer (field_info s f) = true) ->
   gen_field_decode s (oneof_siblings m f slot) slot f = GOk op ->
   (forall tok t, t_num tok = fnum f -> h tok t = hfield s rrec m slot f tok t) ->
   reader_ok h B (op_reader progs F rec op).
 Proof.
-  intros Hgood Hc Ht Hl Hop Hg Hh.
+  intros Hgood Hc Ht Hl Hg Hh.
   pose proof (info_not_repeated s f Hl) as Hrep. pose proof (info_oneof s f) as Hone.
   assert (Hhs : forall tok t, t_num tok = fnum f -> h tok t = _) by (intros tok t E; rewrite (Hh tok t E); apply (hfield_msg s rrec m slot f idx tok t Hc Ht Hrep)).
   clear Hh. unfold gen_field_decode in Hg. rewrite (info_msg s f idx Hc Ht), Hrep, Hone in Hg.
@@ -1087,14 +1089,39 @@ Proof.
                  ltac:(intros [a c]; reflexivity) F').
       specialize (Hrec idx b st (match slot_get (fst t) slot with VEmb fs u => (fs, u) | _ => zero_msgv progs idx end) Hgood Hbb Hlb He).
       fold F. destruct (Dec.loop F (rec idx) (push_state b st) _) as [st' w']. destruct (rrec idx b _) as [x|]; [destruct Hrec as [E1 ->]; auto|exact Hrec].
-    - intros tok E. rewrite (Hhs tok t E). rewrite Hp. unfold slot_get. rewrite (zero_agree s progs idx Hgen), (clear_siblings_none m f slot (fst t) Hno).
+    - intros tok E. rewrite (Hhs tok t E). rewrite Hp, Hone, Hno. unfold slot_get. rewrite (zero_agree s progs idx Hgen), (clear_siblings_none m f slot (fst t) Hno).
       destruct (t_pay tok); try reflexivity. destruct (rrec idx b _); reflexivity. }
+  (* by-value member of a oneof: the wrapper holds the message *)
+  assert (GO : forall (t0 : msgv), pf st = fnum f -> i_pointer (field_info s f) = false -> foneof f <> None ->
+             nth slot (fst t0) (VInt 0) = nth slot (fst t) (VInt 0) -> snd t0 = snd t ->
+             fst t0 = clear_siblings m f slot (fst t) ->
+             let '(st1, t1) := (let '(st', v') := dec_message F (fnum f)
+                   (fun c (v : val) => let m0 := match v with VOpt (Some (VEmb fs1 u1)) => (fs1, u1) | _ => zero_msgv progs idx end in
+                                       let '(c', m') := rec idx c m0 in (c', VOpt (Some (VEmb (fst m') (snd m')))))
+                   st (slot_get (fst t0) slot) in (st', set_slot t0 slot v')) in step_ok h st t st1 t1).
+  { intros t0 Hpf Hp Hyes Hn Hsn Hfs.
+    pose proof (dec_message_step h F B st t (fnum f)
+                  (fun c (v : val) => let m0 := match v with VOpt (Some (VEmb fs1 u1)) => (fs1, u1) | _ => zero_msgv progs idx end in
+                                      let '(c', m') := rec idx c m0 in (c', VOpt (Some (VEmb (fst m') (snd m')))))
+                  (slot_get (fst t0) slot)
+                  (fun b => match rrec idx b (match slot_get (fst t0) slot with VOpt (Some (VEmb fs1 u1)) => (fs1, u1) | _ => zero_msgv progs idx end) with
+                            | Some x => Some (VOpt (Some (VEmb (fst x) (snd x)))) | None => None end)
+                  (fun v => set_slot t0 slot v) He Hb Hpf HB) as Hs.
+    destruct (dec_message F (fnum f) _ st (slot_get (fst t0) slot)) as [st1 v1]. apply Hs.
+    - intros b Hbb Hlb. unfold F.
+      rewrite (loop_wrap (rec idx) (fun v : val => match v with VOpt (Some (VEmb fs1 u1)) => (fs1, u1) | _ => zero_msgv progs idx end)
+                 (fun w => VOpt (Some (VEmb (fst w) (snd w)))) ltac:(intros [a c]; reflexivity) F').
+      specialize (Hrec idx b st (match slot_get (fst t0) slot with VOpt (Some (VEmb fs1 u1)) => (fs1, u1) | _ => zero_msgv progs idx end) Hgood Hbb Hlb He).
+      fold F. destruct (Dec.loop F (rec idx) (push_state b st) _) as [st' w']. destruct (rrec idx b _) as [x|]; [destruct Hrec as [E1 ->]; auto|exact Hrec].
+    - intros tok E. rewrite (Hhs tok t E). rewrite Hp, Hone. destruct (foneof f) as [o|]; [|congruence]. unfold slot_get. rewrite Hn, (zero_agree s progs idx Hgen).
+      destruct (t_pay tok); try reflexivity. destruct (rrec idx b _); [|reflexivity]. unfold set_slot. rewrite Hfs, Hsn. reflexivity. }
   destruct (foneof f) as [o|] eqn:Eo.
-  - (* oneof member: pointer *)
-    specialize (Hop ltac:(discriminate)). rewrite Hop in Hg. injection Hg as <-.
-    cbn [op_match] in Hm. unfold dec_op. cbn [op_match]. rewrite Hm. cbn [dec_op_run]. rewrite Hm. apply Z.eqb_eq in Hm.
-    rewrite clear_siblings_model.
-    apply (GP (clear_siblings m f slot (fst t), snd t) Hm Hop); cbn [fst snd]; [apply clear_siblings_nth|reflexivity|reflexivity].
+  - (* oneof member: pointer, or by value (always-present message type) *)
+    destruct (i_pointer (field_info s f)) eqn:Ep; injection Hg as <-;
+      cbn [op_match] in Hm; unfold dec_op; cbn [op_match]; rewrite Hm; cbn [dec_op_run]; rewrite Hm; apply Z.eqb_eq in Hm;
+      rewrite clear_siblings_model.
+    + apply (GP (clear_siblings m f slot (fst t), snd t) Hm eq_refl); cbn [fst snd]; [apply clear_siblings_nth|reflexivity|reflexivity].
+    + apply (GO (clear_siblings m f slot (fst t), snd t) Hm eq_refl ltac:(discriminate)); cbn [fst snd]; [apply clear_siblings_nth|reflexivity|reflexivity].
   - destruct (i_pointer (field_info s f)) eqn:Ep; injection Hg as <-;
       cbn [op_match] in Hm; unfold dec_op; cbn [op_match]; rewrite Hm; cbn [dec_op_run]; apply Z.eqb_eq in Hm.
     + destruct t as [fs un]. apply (GP (fs, un) Hm eq_refl); cbn [fst snd]; try reflexivity.
@@ -1816,7 +1843,7 @@ Definition supported (s : schema) (f : fdesc) : Prop :=
   (f_custom f = CNone /\
    ((scalar_like f /\ (flabel f <> LRepeated \/ foneof f = None)) \/
     (exists idx, fty f = TMsg idx /\
-       ((flabel f <> LRepeated /\ (foneof f <> None -> i_pointer (field_info s f) = true)) \/
+       (flabel f <> LRepeated \/
         (flabel f = LRepeated /\ foneof f = None))) \/
     (exists kk vk, fty f = TMap kk vk /\ foneof f = None))) \/
   ((f_custom f = CTimestamp \/ f_custom f = CDuration) /\ (foneof f <> None -> i_repeated (field_info s f) = false)).
@@ -1860,8 +1887,8 @@ Proof.
     + apply (scalar_like_ok s progs F' _ (ref_decode fuel s) m _ B k slot f op Hc Hk ltac:(rewrite El; discriminate) Hg Hh).
     + destruct Hlab as [Hl|Hno]; [congruence|].
       apply (rep_scalar_ok s progs F' _ (ref_decode fuel s) m _ B k slot f op Hc Hk El Hno Hvn Hg Hh).
-  - pose proof (Hcl f midx Hf Hty) as Hgj. destruct Hlab as [[Hl Hp]|[Hl Hno]].
-    + apply (msg_field_ok s progs F' _ (ref_decode fuel s) m _ B Hgen good IH' midx slot f op Hgj Hc Hty Hl Hp Hg Hh).
+  - pose proof (Hcl f midx Hf Hty) as Hgj. destruct Hlab as [Hl|[Hl Hno]].
+    + apply (msg_field_ok s progs F' _ (ref_decode fuel s) m _ B Hgen good IH' midx slot f op Hgj Hc Hty Hl Hg Hh).
     + apply (rep_msg_field_ok s progs F' _ (ref_decode fuel s) m _ B Hgen (dec_msg_sticky_any progs (S F') fuel) good IH' midx slot f op Hgj Hc Hty Hl Hno Hvn Hg Hh).
   - apply (map_field_ok s progs F' _ (ref_decode fuel s) m _ B HB kk vk slot f op Hc Hty Hno Hvn Hg Hh).
   - apply (cast_field_ok s progs F' _ (ref_decode fuel s) m _ B HB slot f op Hc Hvn Hor Hg Hh).
@@ -1929,7 +1956,7 @@ Definition supported_b (s : schema) (f : fdesc) : bool :=
   | CNone =>
       match fty f with
       | TScalar _ | TEnum => negb (is_repeated_label (flabel f)) || no_oneof f
-      | TMsg _ => if is_repeated_label (flabel f) then no_oneof f else (no_oneof f || i_pointer (field_info s f))
+      | TMsg _ => if is_repeated_label (flabel f) then no_oneof f else true
       | TMap _ _ => no_oneof f
       | TMapOther => false
       end
@@ -1949,8 +1976,8 @@ Proof.
       * left. destruct (flabel f); try discriminate; discriminate H.
       * right. destruct (foneof f); [discriminate H|reflexivity].
     + right. left. exists idx. split; [first [exact Et|reflexivity]|]. destruct (flabel f) eqn:El.
-      * left. split; [discriminate|]. intros Ho. destruct (foneof f); [cbn in H; exact H|congruence].
-      * left. split; [discriminate|]. intros Ho. destruct (foneof f); [cbn in H; exact H|congruence].
+      * left. discriminate.
+      * left. discriminate.
       * right. split; [reflexivity|]. destruct (foneof f); [discriminate H|reflexivity].
     + right. right. exists kk, vk. split; [first [exact Et|reflexivity]|]. destruct (foneof f); [discriminate H|reflexivity].
   - right. split; [left; reflexivity|]. intros Ho. destruct (foneof f); [cbn in H; apply negb_true_iff in H; exact H|congruence].
